@@ -728,3 +728,4 @@ def run(prog, R, tier):
     codecrules.r_valid(prog, R, "R-C03-VALID")
     codecrules.r_rcode(prog, R, "R-C03-RCODE")
     codecrules.r_optscan(prog, R, "R-C03-OPTSCAN")
+    codecrules.r_qdcount(prog, R, "R-C03-QDCOUNT")
